@@ -13,14 +13,14 @@ def fmt(v):
     return ",".join(str(x) for x in v) if v else "-"
 
 
-def build(ctx):
+def build(ctx, alt=False):
     R = core.REPO
     objs = []
     procs = []
     import subprocess
     for i, f in enumerate(FILES):
-        o = os.path.join(ctx.work, "str%d.o" % i)
-        cmd = ["gcc", "-std=gnu11", "-g", "-O1", "-fsanitize=address", "-fno-omit-frame-pointer", "-w", "-fno-builtin", "-D_GNU_SOURCE", "-Werror=implicit-function-declaration", "-I" + R,
+        o = os.path.join(ctx.work, "str%s%d.o" % ("_alt" if alt else "", i))
+        cmd = ["gcc", "-std=gnu11", "-g"] + core.opt_flags(alt) + ["-fsanitize=address", "-fno-omit-frame-pointer", "-w", "-fno-builtin", "-D_GNU_SOURCE", "-Werror=implicit-function-declaration", "-I" + R,
                "-include", os.path.join(core.HARNESS, "rename_string.h"), "-c", os.path.join(R, "compat/libc/string", f + ".c"), "-o", o]
         procs.append((cmd, subprocess.Popen(cmd, stdout=subprocess.PIPE, stderr=subprocess.STDOUT)))
         objs.append(o)
@@ -28,7 +28,7 @@ def build(ctx):
         out, _ = p.communicate()
         if p.returncode != 0:
             raise core.InfraError("compile failed: %s\n%s" % (" ".join(cmd), out.decode()[-3000:]))
-    return ctx.cxx("drv_cstring", ["drv_cstring.cpp"], objs=objs)
+    return ctx.cxx("drv_cstring" + ("_alt" if alt else ""), ["drv_cstring.cpp"], objs=objs, alt=alt)
 
 
 def slen(m, o):
@@ -258,6 +258,11 @@ def check(ctx):
     tn = ctx.drive(drv, nscript, "cstring_nest", timeout=1500, lines_per_proc=8)
     ctx.extra["interrupted_calls"] = len(nest)
     bad = ctx.judge("CStringTrace", [t, tb, tn], shards=16)
+    # the second build configuration (size-optimised, plain char unsigned) on part of the executions
+    ta = ctx.drive(build(ctx, alt=True), core.subset_executions(script, ctx.seed, 1.0 if ctx.thorough else 0.34), "cstring_alt")
+    bada = ctx.judge("CStringTrace", [ta], shards=16)
+    for b in bada: b["driver"] = "drv_cstring@alt"
+    bad += bada
     for b in bad: b["driver"] = "drv_cstring"
     ctx.report(bad)
     ctx.assumptions += [
@@ -271,7 +276,7 @@ def check(ctx):
 
 def replay(ctx, path):
     d = json.load(open(path))
-    drv = build(ctx)
+    drv = build(ctx, alt=core.is_alt(d))
     e = d["event"]
     if e.get("e") == "Fault":
         return core.replay_fault(ctx, d, drv, "CStringTrace", path)
